@@ -47,7 +47,10 @@ def _alphabet(rows, cols):
     ops += [('put_abs', 1, 1, 'yz'), ('put_abs', rows, cols, b'q'), ('put', 'a'), ('put', b'b'), ('put', 'cd'),
             ('insert', 'j'), ('insert', b'k'), ('insert_abs', 1, 1, b'm'),
             ('fill', 'f'), ('fill',), ('fill', b'g'),
-            ('cursor_home',), ('cursor_force_position', rows, 1), ('cursor_force_position', 0, cols + 3)]
+            ('cursor_home',), ('cursor_force_position', rows, 1), ('cursor_force_position', 0, cols + 3),
+            # cells may hold any character: control characters and the other Unicode line boundaries are just cell
+            # contents for the grid and for every accessor
+            ('put', '\x85'), ('put', b'\x85'), ('put_abs', 1, 1, '\u2028'), ('insert', '\x1d'), ('put', '\r'), ('fill', '\x0c')]
     boxes = [(1, 1, rows, cols), (rows, cols, 1, 1), (0, 0, rows + 1, cols + 1), (1, 2, 1, 2), (2, 1, 1, cols),
              (rows + 1, 1, rows + 1, cols), (1, cols + 1, rows, cols + 2), (-1, -1, 0, 0), (1, cols, rows, 1),
              (2, 2, rows, cols), (rows, 1, rows, cols), (1, 1, 1, 1)]
